@@ -156,6 +156,11 @@ class SourceMapping:
     def deserialize(cls, data_list: list[Any]) -> SourceMapping:
         return SourceMapping(data_list[0], data_list[1])
 
+    def __eq__(self, other: object) -> bool:
+        if not isinstance(other, SourceMapping):
+            return False
+        return self.serialize() == other.serialize()
+
 
 class MacroSourceMapping(SourceMapping):
     relpath_included_file: str | None
@@ -209,6 +214,18 @@ class MacroSourceMapping(SourceMapping):
         return MacroSourceMapping(
             data_list[0], data_list[1], data_list[2], data_list[3], data_list[4], data_list[5], data_list[6]
         )
+
+    def serialize_for_comparison(self) -> list[Any]:
+        # called_in is a tuple when built by the compiler and a list when read from JSON.
+        data_list = self.serialize()
+        data_list[4] = list(data_list[4]) if data_list[4] is not None else None
+        data_list[6] = dict(data_list[6])
+        return data_list
+
+    def __eq__(self, other: object) -> bool:
+        if not isinstance(other, MacroSourceMapping):
+            return False
+        return self.serialize_for_comparison() == other.serialize_for_comparison()
 
 
 class SourceMap:
@@ -298,7 +315,12 @@ class SourceMap:
     def __eq__(self, other: object) -> bool:
         if not isinstance(other, SourceMap):
             return False
-        return self._mappings == other._mappings and self._position_marks == other._position_marks
+        return (
+            self._mappings == other._mappings
+            and self._position_marks == other._position_marks
+            and self._mappings_macros == other._mappings_macros
+            and [tuple(x) for x in self._position_marks_macro] == [tuple(x) for x in other._position_marks_macro]
+        )
 
     def __str__(self) -> str:
         return self.serialize()
